@@ -28,6 +28,7 @@ func runC20(c *Ctx) {
 	c20DialConn(c)
 	// the poisoned deadline ends the handshake only if readLine hands the read error back
 	readLineRules(c, "C20")
+	c20NoEarlyIO(c)
 }
 
 func c20Dial(c *Ctx) {
@@ -488,16 +489,16 @@ func c20DialConn(c *Ctx) {
 	m.Models["(*net.Dialer).DialContext$bound"] = dialModel
 	m.Models["callback:TLSClient"] = func(cl *fold.Call) fold.Val {
 		cl.M.Emit(fold.Effect{Kind: "call", Name: "tls", Args: cl.Args})
-		return fold.Iface{V: fold.Sym{Name: "tls(conn)", NonNil: true}}
+		return fold.Iface{V: fold.Sym{Name: "tls(" + connArg(cl.Args) + ")", NonNil: true}}
 	}
 	m.Models["("+ws+".Dialer).tlsClient"] = func(cl *fold.Call) fold.Val {
 		cl.M.Emit(fold.Effect{Kind: "call", Name: "tls", Args: cl.Args[1:]})
-		return fold.Iface{V: fold.Sym{Name: "tls(conn)", NonNil: true}}
+		return fold.Iface{V: fold.Sym{Name: "tls(" + connArg(cl.Args) + ")", NonNil: true}}
 	}
 	m.Models["("+ws+".Dialer).tlsClient$bound"] = m.Models["("+ws+".Dialer).tlsClient"]
 	m.Models["callback:WrapConn"] = func(cl *fold.Call) fold.Val {
 		cl.M.Emit(fold.Effect{Kind: "call", Name: "wrap", Args: cl.Args})
-		return fold.Iface{V: fold.Sym{Name: "wrap(" + fold.Show(cl.Args[0]) + ")", NonNil: true}}
+		return fold.Iface{V: fold.Sym{Name: "wrap(" + nameOf(cl.Args[0]) + ")", NonNil: true}}
 	}
 	m.Models["invoke:(net.Conn).Close"] = func(cl *fold.Call) fold.Val {
 		cl.M.Emit(fold.Effect{Kind: "call", Name: "Close", Args: cl.Args})
@@ -557,6 +558,18 @@ func c20DialConn(c *Ctx) {
 			if !strings.Contains(fold.Show(ret[0]), "conn") {
 				problems = append(problems, "dial succeeds but does not return the dialed connection: "+fold.Show(ret[0])+" "+desc)
 			}
+			// layering: TLS on the dialed connection, the user's wrapper outermost (it must see the
+			// handshake bytes, not TLS records, and its result is what the handshake runs on)
+			want := "conn"
+			if p.Chose("scheme") == 1 {
+				want = "tls(conn)"
+			}
+			if p.Chose("set(WrapConn)") == 1 {
+				want = "wrap(" + want + ")"
+			}
+			if got := nameOf(ret[0]); got != want {
+				problems = append(problems, "dial returns "+got+", want "+want+" "+desc)
+			}
 			if closed {
 				problems = append(problems, "dial closes the connection it returns "+desc)
 			}
@@ -569,4 +582,68 @@ func c20DialConn(c *Ctx) {
 	}
 	c.R.AddCells(len(paths))
 	c.verdict(rule, rule+"/dial", c.P.FuncPos(f), uniq(problems), fmt.Sprintf("%d paths over scheme x callbacks set x dial outcome", len(paths)))
+}
+
+// c20NoEarlyIO: Dial arms the deadline / the context watcher only after
+// Dialer.dial returned, so nothing in dial or tlsClient may perform I/O on the
+// connection (a TLS handshake there would block outside every bound).
+func c20NoEarlyIO(c *Ctx) {
+	const rule = "C20.no-io-before-deadline"
+	c.R.Rule(rule, 2, "Dialer.dial and Dialer.tlsClient perform no I/O on the connection they set up")
+	for _, name := range []string{"dial", "tlsClient"} {
+		f := c.method(rule, ws, "Dialer", name)
+		if f == nil {
+			continue
+		}
+		bad := ""
+		fns := append([]*ssa.Function{f}, f.AnonFuncs...)
+		for _, fn := range fns {
+			for _, b := range fn.Blocks {
+				for _, in := range b.Instrs {
+					ci, ok := in.(ssa.CallInstruction)
+					if !ok {
+						continue
+					}
+					cc := ci.Common()
+					meth := ""
+					if cc.IsInvoke() {
+						meth = cc.Method.FullName()
+					} else if cal := cc.StaticCallee(); cal != nil && cal.Signature.Recv() != nil {
+						meth = cal.String()
+					}
+					if meth == "" {
+						continue
+					}
+					if !(strings.Contains(meth, "net.Conn") || strings.Contains(meth, "crypto/tls.Conn") || strings.Contains(meth, "io.Reader") || strings.Contains(meth, "io.Writer")) {
+						continue
+					}
+					short := meth[strings.LastIndexByte(meth, '.')+1:]
+					switch short {
+					case "Read", "Write", "Handshake", "HandshakeContext", "ReadFrom", "WriteTo":
+						bad = meth + " at " + c.P.Pos(in.Pos())
+					}
+				}
+			}
+		}
+		key := rule + "/Dialer." + name
+		if bad == "" {
+			c.R.OK(rule, key, c.P.FuncPos(f), "no Read / Write / Handshake on a connection")
+		} else {
+			c.R.Fail(rule, key, c.P.FuncPos(f), "I/O on the connection before Dial has armed the deadline or the context watcher: "+bad+" - a peer that stays silent there blocks Dial outside Timeout and outside the context")
+		}
+	}
+}
+
+// connArg names the connection among the arguments of a TLS wrapper (the receiver may or may not
+// be part of the argument list, depending on how the method value was formed).
+func connArg(args []fold.Val) string {
+	for _, a := range args {
+		switch a.(type) {
+		case fold.Iface, fold.Sym:
+			if n := nameOf(a); strings.Contains(n, "conn") {
+				return n
+			}
+		}
+	}
+	return "?"
 }
